@@ -94,6 +94,27 @@ fn in_packet_case(ctx: &mut Ctx, compressed: bool, frame: &[u8], off: usize) {
     }
 }
 
+/// the field is six bytes however the reader cuts them up, and the reader is left right behind them
+fn segmented_case(ctx: &mut Ctx, b: &[u8], per: usize) {
+    ctx.oracle_eval("dribbling-reader");
+    let whole = read_trk(b).map(|r| r.map(|t| name(&t)));
+    let b2 = b.to_vec();
+    let piecewise = guard(move || { let mut r = Dribble::new(&b2, per); let t = Track::read_le(&mut r).map(|t| name(&t)).map_err(|_| ()); (t, r.inner.position()) });
+    match piecewise {
+        Some((t, pos)) if Some(t.clone()) == whole && (t.is_err() || pos == 6) => {},
+        other => ctx.violation("c14/segmented-read", "the same six bytes decode differently (or leave the reader elsewhere) when the reader hands them over in pieces", &format!("trk.seg {} {}", hex(b), per), &format!("{:?} at 6", whole), &format!("{:?}", other)),
+    }
+}
+
+/// fewer than six bytes are no track name
+fn short_case(ctx: &mut Ctx, b: &[u8]) {
+    ctx.oracle_eval("short-input");
+    match read_trk(b) {
+        Some(Err(())) => {},
+        other => ctx.violation("c14/short-input", "an input shorter than the six-byte field decodes to a configuration", &format!("trk.dec {}", if b.is_empty() { "-".to_string() } else { hex(b) }), "a decode error", &format!("{:?}", other.map(|r| r.map(|t| name(&t)))))
+    }
+}
+
 pub fn run(ctx: &mut Ctx) {
     let all = tracks();
     if let Some(lines) = ctx.replay.clone() {
@@ -102,8 +123,10 @@ pub fn run(ctx: &mut Ctx) {
             let w: Vec<&str> = l.split_whitespace().collect();
             match w.as_slice() {
                 ["pkt.rt", m, h] => { let f = unhex(h); for (b, off) in track_fields(&ls, *m == "c") { if b.get(1) == f.get(1) && off + 6 <= f.len() { in_packet_case(ctx, *m == "c", &f, off); } } },
+                ["trk.seg", h, per] => segmented_case(ctx, &unhex(h), per.parse().unwrap_or(1).max(1)),
                 ["trk.dec", h] => {
-                    let b = unhex(h);
+                    let b = if *h == "-" { vec![] } else { unhex(h) };
+                    if b.len() < 6 { short_case(ctx, &b); }
                     ctx.case(&l, &dec_line(&b));
                     if b.len() == 6 { oracle_bytes(ctx, &[b[0], b[1], b[2], b[3], b[4], b[5]], &all); }
                 },
@@ -120,6 +143,11 @@ pub fn run(ctx: &mut Ctx) {
         row_oracle(ctx, t, &all);
     }
     ctx.exhaustive_domains.push(format!("all {} declared configurations: wire, decode(wire), code, flags, distance, licence", all.len()));
+    // the same six bytes from a reader that hands them over in pieces, and inputs shorter than the field
+    for t in all.iter() { let w = t.code(); let mut b = w.as_bytes().to_vec(); b.resize(6, 0); for per in 1..=6usize { segmented_case(ctx, &b, per); } }
+    for u in [&b"ZZ9\0\0\0"[..], b"\0\0\0\0\0\0", b"BL1\0\0\x01", b"RO10XX"] { for per in [1usize, 3, 5] { segmented_case(ctx, u, per); } }
+    for t in all.iter() { let mut b = t.code().as_bytes().to_vec(); b.resize(6, 0); for cut in 1..6usize { short_case(ctx, &b[..cut]); } }
+    ctx.exhaustive_domains.push(format!("all {} wire forms from a reader that gives 1..6 bytes per call; every proper prefix of every wire form", all.len()));
     // inside packets: every kind with a track field x {every configuration, near misses, unknown names}
     {
         let ls = crate::pkt::load_layouts();
